@@ -689,6 +689,9 @@ struct Value {
             }
         } else if (type == ValueType::ValuePtr) {
             return value_->operator<(val);
+        } else if (val.Type() == ValueType::ValuePtr) {
+            // The same answer whichever side the pointer is on.
+            return (*this < *(val.value_));
         }
 
         return (type < val.Type());
@@ -736,6 +739,9 @@ struct Value {
             }
         } else if (type == ValueType::ValuePtr) {
             return value_->operator>(val);
+        } else if (val.Type() == ValueType::ValuePtr) {
+            // The same answer whichever side the pointer is on.
+            return (*this > *(val.value_));
         }
 
         return (type > val.Type());
@@ -783,6 +789,9 @@ struct Value {
             }
         } else if (type == ValueType::ValuePtr) {
             return value_->operator<=(val);
+        } else if (val.Type() == ValueType::ValuePtr) {
+            // The same answer whichever side the pointer is on.
+            return (*this <= *(val.value_));
         }
 
         return (type < val.Type());
@@ -830,6 +839,9 @@ struct Value {
             }
         } else if (type == ValueType::ValuePtr) {
             return value_->operator>=(val);
+        } else if (val.Type() == ValueType::ValuePtr) {
+            // The same answer whichever side the pointer is on.
+            return (*this >= *(val.value_));
         }
 
         return (type > val.Type());
@@ -877,6 +889,9 @@ struct Value {
             }
         } else if (type == ValueType::ValuePtr) {
             return value_->operator==(val);
+        } else if (val.Type() == ValueType::ValuePtr) {
+            // The same answer whichever side the pointer is on.
+            return (*this == *(val.value_));
         }
 
         return false; // Different kinds are never equal.
